@@ -648,6 +648,9 @@ class NDCubeBase(NDCubeABC, astropy.nddata.NDData, NDCubeSlicingMixin):
         elif len(units) != n_coords:
             raise ValueError(f"Units must be None or have same length {n_coords} as corner inputs.")
         types_with_units = (u.Quantity, type(None))
+        # A FITS WCS only normalises its units (e.g. arcsec to deg) when it is first evaluated,
+        # so evaluate it before reading the units the values passed to it must be in.
+        wcs.pixel_to_world_values(*[0] * wcs.pixel_n_dim)
         for i, point in enumerate(points):
             if len(point) != wcs.world_n_dim:
                 raise ValueError(f"{len(point)} dimensions in point {i} do not match "
